@@ -1,9 +1,12 @@
 package main
 
 import (
+	"verifharness/gossip"
 	"verifharness/util"
 )
 
 func registerAll() {
 	register(util.LRUAdapters()...)
+	commands["bufrun"] = gossip.CmdBufRun
+	commands["bufconc"] = func(a []string) int { return gossip.CmdBufConc(a, seed()) }
 }
